@@ -1,7 +1,7 @@
 (* Extract.v — extraction of the executable model to OCaml (ExtrOcamlBasic only; N and Z stay
    the extracted binary datatypes; no Extract Constant).  Compiled from /verif/runner so that
    model.ml / model.mli land here. *)
-From TSS Require Import Seq Http Fault.
+From TSS Require Import Seq Http Fault Boot.
 From Coq Require Import ExtrOcamlBasic.
 Extraction Language OCaml.
-Extraction "model.ml" step run_hist http_step fstep http_fstep plan_of InMemB SqliteB im_empty sq_empty default_config N.add N.mul N.div N.modulo.
+Extraction "model.ml" step run_hist http_step fstep http_fstep plan_of boot InMemB SqliteB im_empty sq_empty default_config N.add N.mul N.div N.modulo.
